@@ -221,6 +221,7 @@ pub fn abs_att(
     checked: bool,
     recs: Option<&AttemptRecs>,
     height: u32,
+    gas_price: u64,
 ) -> T {
     let params = w.params.clone();
     let chain_id = params.chain_id();
@@ -236,6 +237,15 @@ pub fn abs_att(
             Err(_) => true,
         },
     };
+    // into_ready, judged independently of the executor
+    let ready_ok = match tx.clone().into_checked_basic(BlockHeight::new(height), &params) {
+        Ok(c) => ready(c, gas_price, &params, height),
+        Err(_) => match tx.clone().into_checked_basic(BlockHeight::new(0), &params) {
+            Ok(c) => ready(c, gas_price, &params, height),
+            Err(_) => true,
+        },
+    };
+    let vm_err: u64 = if ready_ok { 13 } else { 3 };
     let vm = match recs.and_then(|r| r.vm.as_ref().map(|v| (r, v))) {
         None => T::l(vec![]),
         Some((r, (reverted, ins, outs, receipts))) => {
@@ -258,7 +268,27 @@ pub fn abs_att(
             ])
         }
     };
-    T::l(vec![a_tx, T::b(checked), n(expiration), T::b(basic_ok), T::b(true), T::b(sig_ok), vm, T::b(true)])
+    T::l(vec![a_tx, T::b(checked), n(expiration), T::b(basic_ok), T::b(true), T::b(sig_ok), vm, n(vm_err), T::b(true)])
+}
+
+fn ready(
+    c: fuel_core_types::fuel_vm::checked_transaction::Checked<Transaction>,
+    gas_price: u64,
+    params: &ConsensusParameters,
+    height: u32,
+) -> bool {
+    use fuel_core_types::fuel_vm::checked_transaction::CheckedTransaction as C;
+    let gc = params.gas_costs();
+    let fp = params.fee_params();
+    let h = Some(BlockHeight::new(height));
+    match C::from(c) {
+        C::Script(t) => t.into_ready(gas_price, gc, fp, h).is_ok(),
+        C::Create(t) => t.into_ready(gas_price, gc, fp, h).is_ok(),
+        C::Upgrade(t) => t.into_ready(gas_price, gc, fp, h).is_ok(),
+        C::Upload(t) => t.into_ready(gas_price, gc, fp, h).is_ok(),
+        C::Blob(t) => t.into_ready(gas_price, gc, fp, h).is_ok(),
+        C::Mint(_) => true,
+    }
 }
 
 // ---------------------------------------------------------------- tables
@@ -366,6 +396,13 @@ fn executor(w: &World) -> Exec {
 
 /// validate `block`; returns (attempt list for the model, result)
 fn validate(w: &mut World, ex: &Exec, block: &Block, height: u32) -> (T, T, Option<Changes>) {
+    let gas_price = match block.transactions().last() {
+        Some(Transaction::Mint(m)) => {
+            use fuel_core_types::fuel_tx::field::MintGasPrice;
+            *m.gas_price()
+        }
+        _ => 0,
+    };
     let _ = verif_hooks::take();
     let res = ex.validate(block);
     let (atts, fin) = split_log(verif_hooks::take());
@@ -375,7 +412,7 @@ fn validate(w: &mut World, ex: &Exec, block: &Block, height: u32) -> (T, T, Opti
         .iter()
         .enumerate()
         .map(|(k, tx)| {
-            let mut a = abs_att(w, tx, false, atts.get(k), height);
+            let mut a = abs_att(w, tx, false, atts.get(k), height, gas_price);
             if let (Transaction::Mint(_), T::L(v)) = (tx, &mut a) {
                 // the recomputed mint is opaque: its digest is the block's own
                 let mall = match &v[0] {
@@ -466,7 +503,7 @@ pub fn run_block(w: &mut World, rng: &mut Rng, plan: BlockPlan) -> (T, T) {
                 deliveries.push((id, None));
                 None
             };
-            b.push(abs_att(w, tx, checked[*k], recs, height));
+            b.push(abs_att(w, tx, checked[*k], recs, height, plan.gas_price));
         }
         batches.push(T::l(b));
     }
@@ -524,7 +561,7 @@ pub fn run_block(w: &mut World, rng: &mut Rng, plan: BlockPlan) -> (T, T) {
             );
             let mint_tx = block.transactions().last().expect("mint").clone();
             mint_att = {
-                let mut a = abs_att(w, &mint_tx, false, None, height);
+                let mut a = abs_att(w, &mint_tx, false, None, height, plan.gas_price);
                 if let T::L(v) = &mut a {
                     let mall = match &v[0] {
                         T::L(t) => t[4].clone(),
@@ -563,6 +600,7 @@ pub fn run_block(w: &mut World, rng: &mut Rng, plan: BlockPlan) -> (T, T) {
                 T::b(true),
                 T::b(true),
                 T::l(vec![]),
+                n(13),
                 T::b(!matches!(e, ExecutorError::CoinbaseCannotIncreaseBalance(_))),
             ]);
         }
